@@ -69,7 +69,7 @@ func runC06(c *core.Ctx) {
 				}
 				for _, vars := range world.VarMaps(d)[:1] {
 					for _, nc := range cfgs {
-						if strings.HasSuffix(nc.Name, "native") && !c.Thorough() && dist > 0 {
+						if (strings.HasSuffix(nc.Name, "native") || strings.HasSuffix(nc.Name, "listresolver")) && !c.Thorough() && dist > 0 {
 							continue // quick: native carriers only on the bases
 						}
 						g := graphs[gi]
